@@ -209,8 +209,10 @@ def handleGstrs (o : Ops K) (c : Case) : Res :=
     match (List.range bbRaw.size).find? (fun k => isPad k && bbRaw[k]! != baRaw.getD k 0) with
     | some k => Res.propFalse s!"{call}: padding element {k / w} (row {(k / w) % ldb} of column {(k / w) / ldb}) was written" tags0
     | none =>
-    -- every column bit-identical to the same column solved alone
-    match (List.range (w * n * nrhs)).find? (fun k => let e := k / w; let j := e / n; let i := e % n
+    -- every column bit-identical to the same column solved alone (bundled kernels only: vendor BLAS
+    -- kernels may round differently depending on batch size / alignment, there the columns are checked
+    -- through the exact / bounded comparison below)
+    match (if c.p "blas" "internal" == "vendor" then [] else List.range (w * n * nrhs)).find? (fun k => let e := k / w; let j := e / n; let i := e % n
             canonNaN (baRaw.getD (w * (j * ldb + i) + k % w) 0) != canonNaN (xsRaw.getD k 0)) with
     | some k => Res.propFalse s!"{call}: column {(k / w) / n} row {(k / w) % n} differs from the same right-hand side solved alone (nrhs=1, ldb=n)" tags0
     | none =>
